@@ -24,6 +24,7 @@ PrefixState(p) ==
     [] p = "setup_tcp" -> "prePlay"
     [] p = "setup_udp" -> "prePlay"
     [] p = "play_tcp" -> "play"
+    [] p = "play_tcp2" -> "play"       \* both medias set up over the connection
     [] p = "play_udp" -> "play"
     [] p = "announce" -> "preRecord"
     [] p = "record_tcp" -> "record"
@@ -37,7 +38,7 @@ React(c, st) ==
               "ws_invalid", "http_post_orphan", "dup_setup", "illegal_state"} -> "response+close"
     [] c \in {"unknown_method", "options_ok", "valid_pause", "valid_play", "valid_record", "valid_teardown",
               "valid_getparam"} -> "response"
-    [] c \in {"frame_unknown_channel", "frame_before_play", "unsolicited_response"} ->
+    [] c \in {"frame_unknown_channel", "frame_before_play", "frame_valid", "unsolicited_response"} ->
          IF st \in {"play", "record"} THEN "ignore" ELSE "close"
     [] c \in {"http_get_valid", "ws_valid", "ws_earlydata"} -> "tunnel"
     [] OTHER -> "close"
@@ -66,11 +67,13 @@ OutcomeOK == \A i \in 1..Len(steps) : Outcome(steps[i].react) \in {"response", "
 \* a closed connection never keeps a TCP-bound session
 NoOrphan == (~alive /\ prefix # "play_udp") => ~sess
 
-AllPrefixes == {"none", "setup_tcp", "setup_udp", "play_tcp", "play_udp", "announce", "record_tcp"}
+AllPrefixes == {"none", "setup_tcp", "setup_udp", "play_tcp", "play_tcp2", "play_udp", "announce", "record_tcp"}
 AllClasses == {"garbage", "half_request", "http_get_half", "trunc_header", "trunc_body", "no_cseq", "bad_url",
                "oversize_header", "oversize_url", "bad_content_length", "bad_transport", "bad_session",
                "bad_keymgmt", "bad_sdp", "wrong_version", "ws_invalid", "http_post_orphan", "dup_setup",
                "illegal_state", "unknown_method", "options_ok", "frame_unknown_channel", "frame_before_play",
+               \* well-formed RTP / RTCP packets with the medias' own payload types on every channel
+               "frame_valid",
                "unsolicited_response", "http_get_valid", "ws_valid", "ws_earlydata",
                \* well-formed requests: hostile only through the configuration they meet (handler subsets)
                "valid_pause", "valid_play", "valid_record", "valid_teardown", "valid_getparam",
